@@ -284,24 +284,30 @@ func newNmEnvN(t testing.TB, r *rand.Rand, withBalance bool, nProbes, nNodes, nc
 }
 
 type nmOp struct {
-	Kind    string      `json:"kind"` // newEpoch addPeer addPeerIR addNode deleteNode updateState updateStateIR updateSnapshotCount subscribe setConfig probeSetFault probeClearFault
-	Epoch   int64       `json:"epoch,omitempty"`
-	Info    []byte      `json:"info,omitempty"`
-	Key     []byte      `json:"key,omitempty"`
-	State   int64       `json:"state,omitempty"`
-	Addrs   []string    `json:"addrs,omitempty"`
-	Attrs   [][2]string `json:"attrs,omitempty"`
-	Count   int64       `json:"count,omitempty"`
-	Hash    []byte      `json:"hash,omitempty"`
-	Probe   int         `json:"probe,omitempty"`
-	CfgKey  []byte      `json:"cfgkey,omitempty"`
-	CfgVal  []byte      `json:"cfgval,omitempty"`
-	Signers []int       `json:"signers"`         // -1 = committee (Alphabet), i = node i
-	Join    bool        `json:"join,omitempty"`  // same block as the next operation
-	Light   bool        `json:"light,omitempty"` // C08 warm-up tick: only the short projection is read
+	Kind     string      `json:"kind"` // newEpoch addPeer addPeerIR addNode deleteNode updateState updateStateIR updateSnapshotCount subscribe setConfig probeSetFault probeClearFault
+	Epoch    int64       `json:"epoch,omitempty"`
+	Info     []byte      `json:"info,omitempty"`
+	Key      []byte      `json:"key,omitempty"`
+	State    int64       `json:"state,omitempty"`
+	Addrs    []string    `json:"addrs,omitempty"`
+	Attrs    [][2]string `json:"attrs,omitempty"`
+	Count    int64       `json:"count,omitempty"`
+	Hash     []byte      `json:"hash,omitempty"`
+	Probe    int         `json:"probe,omitempty"`
+	CfgKey   []byte      `json:"cfgkey,omitempty"`
+	CfgVal   []byte      `json:"cfgval,omitempty"`
+	Signers  []int       `json:"signers"`            // -1 = committee (Alphabet), i = node i
+	Unscoped []int       `json:"unscoped,omitempty"` // signers present in the transaction with scope None (fee only)
+	Join     bool        `json:"join,omitempty"`     // same block as the next operation
+	Light    bool        `json:"light,omitempty"`    // C08 warm-up tick: only the short projection is read
 }
 
 func (o nmOp) String() string {
+	if len(o.Unscoped) > 0 {
+		u := o.Unscoped
+		o.Unscoped = nil
+		return fmt.Sprintf("%s+scopeNone%v", o.String(), u)
+	}
 	switch o.Kind {
 	case "newEpoch":
 		return fmt.Sprintf("newEpoch(%d)%v", o.Epoch, o.Signers)
@@ -384,12 +390,11 @@ func (n *nmEnv) gateVariant(op nmOp) nmOp {
 }
 
 func (n *nmEnv) prepare(op nmOp) *transaction.Transaction {
-	sg := n.signerList(op.Signers)
 	switch op.Kind {
 	case "newEpoch":
-		return n.PrepareTx(sg, n.netmap, "newEpoch", op.Epoch)
+		return n.prepareTx(op, n.netmap, "newEpoch", op.Epoch)
 	case "addPeer", "addPeerIR":
-		return n.PrepareTx(sg, n.netmap, op.Kind, op.Info)
+		return n.prepareTx(op, n.netmap, op.Kind, op.Info)
 	case "addNode":
 		var as []stackitem.Item
 		for _, a := range op.Addrs {
@@ -401,19 +406,49 @@ func (n *nmEnv) prepare(op nmOp) *transaction.Transaction {
 		}
 		st := stackitem.NewStruct([]stackitem.Item{stackitem.NewArray(as), stackitem.NewMapWithValue(ms),
 			stackitem.NewByteArray(op.Key), stackitem.Make(op.State)})
-		return n.PrepareTx(sg, n.netmap, "addNode", st)
+		return n.prepareTx(op, n.netmap, "addNode", st)
 	case "deleteNode":
-		return n.PrepareTx(sg, n.netmap, "deleteNode", op.Key)
+		return n.prepareTx(op, n.netmap, "deleteNode", op.Key)
 	case "updateState", "updateStateIR":
-		return n.PrepareTx(sg, n.netmap, op.Kind, op.State, op.Key)
+		return n.prepareTx(op, n.netmap, op.Kind, op.State, op.Key)
 	case "updateSnapshotCount":
-		return n.PrepareTx(sg, n.netmap, "updateSnapshotCount", op.Count)
+		return n.prepareTx(op, n.netmap, "updateSnapshotCount", op.Count)
 	case "subscribe":
-		return n.PrepareTx(sg, n.netmap, "subscribeForNewEpoch", op.Hash)
+		return n.prepareTx(op, n.netmap, "subscribeForNewEpoch", op.Hash)
 	case "setConfig":
-		return n.PrepareTx(sg, n.netmap, "setConfig", []byte{1}, op.CfgKey, op.CfgVal)
+		return n.prepareTx(op, n.netmap, "setConfig", []byte{1}, op.CfgKey, op.CfgVal)
 	}
 	panic(op.Kind)
+}
+
+// prepareTx builds the transaction of op: op.Signers with scope Global (they
+// witness the call), op.Unscoped with scope None (fee-only signatures: they
+// witness nothing).
+func (n *nmEnv) prepareTx(op nmOp, h util.Uint160, method string, args ...any) *transaction.Transaction {
+	if len(op.Unscoped) == 0 {
+		return n.PrepareTx(n.signerList(op.Signers), h, method, args...)
+	}
+	tx := n.E.NewUnsignedTx(n.T, h, method, args...)
+	var sgs []neotest.Signer
+	seen := map[util.Uint160]bool{}
+	add := func(idx []int, scope transaction.WitnessScope) {
+		for _, sg := range n.signerList(idx) {
+			if seen[sg.ScriptHash()] {
+				continue
+			}
+			seen[sg.ScriptHash()] = true
+			tx.Signers = append(tx.Signers, transaction.Signer{Account: sg.ScriptHash(), Scopes: scope})
+			sgs = append(sgs, sg)
+		}
+	}
+	add(op.Signers, transaction.Global)
+	add(op.Unscoped, transaction.None)
+	neotest.AddNetworkFee(n.T, n.BC, tx, sgs...)
+	tx.SystemFee = 30_0000_0000
+	for _, sg := range sgs {
+		require.NoError(n.T, sg.SignTx(n.BC.GetConfig().Magic, tx))
+	}
+	return tx
 }
 
 type nmRes struct {
@@ -1485,6 +1520,26 @@ func (g *nmGen) sig(node int, needNode bool) []int {
 	return []int{-1}
 }
 
+// unscope moves one of the signers of a candidate request to scope None
+// (one time in eight): a None-scoped signature witnesses nothing, so the
+// request must be treated as if that signer were absent.
+func (g *nmGen) unscope(op nmOp) nmOp {
+	if len(op.Signers) == 0 || g.r.Intn(8) != 0 {
+		return op
+	}
+	j := g.r.Intn(len(op.Signers))
+	keep := []int{}
+	for i, x := range op.Signers {
+		if i == j {
+			op.Unscoped = append(op.Unscoped, x)
+		} else {
+			keep = append(keep, x)
+		}
+	}
+	op.Signers = keep
+	return op
+}
+
 // reInfo returns a legacy node info for node i: the one announced last time
 // (identical re-announcement) in two cases out of five, a fresh one otherwise.
 func (g *nmGen) reInfo(i int, tag byte) []byte {
@@ -1600,7 +1655,7 @@ func (g *nmGen) nextC06(step int, tr *nmTrack) nmOp {
 	}
 	switch w := r.Intn(100); {
 	case w < 30:
-		op = g.candOp(step, byte(step))
+		op = g.unscope(g.candOp(step, byte(step)))
 	case w < 48:
 		// subscription
 		var h []byte
@@ -1663,7 +1718,7 @@ func (g *nmGen) nextC07(step int, tr *nmTrack) nmOp {
 	if g.r.Intn(9) == 0 {
 		return g.tickOp(tr)
 	}
-	op := g.candOp(step, byte(step))
+	op := g.unscope(g.candOp(step, byte(step)))
 	if g.r.Intn(5) == 0 {
 		op.Join = true // several candidate requests in one block
 	}
@@ -1844,6 +1899,16 @@ func nmCorpus(prop string, n *nmEnv) [][]nmOp {
 				tick(11),
 				tick(12),
 			},
+			// a non-empty map is published, the candidate set is emptied, then more ticks than
+			// the ring has slots: the reused slot must hold the EMPTY map
+			cat([]nmOp{{Kind: "addPeerIR", Info: n.info(0, 1, 2), Signers: al}, addN(0, "n0"), tick(1), {Kind: "deleteNode", Key: k0, Signers: al}},
+				func() []nmOp {
+					var out []nmOp
+					for e := int64(2); e <= 13; e++ {
+						out = append(out, tick(e))
+					}
+					return out
+				}()),
 			// LAST: run on a 3-key committee, probes only (no subscriber checks the Alphabet itself)
 			cat(gates(nmOp{Kind: "subscribe", Hash: p0}), []nmOp{{Kind: "subscribe", Hash: p0, Signers: al}},
 				gates(nmOp{Kind: "addPeerIR", Info: n.info(0, 1, 2)}), []nmOp{{Kind: "addPeerIR", Info: n.info(0, 1, 2), Signers: al}},
@@ -1866,6 +1931,15 @@ func nmCorpus(prop string, n *nmEnv) [][]nmOp {
 				{Kind: "addNode", Addrs: []string{"x"}, Key: k0, State: 3, Signers: []int{-1, 0}},
 				{Kind: "addNode", Addrs: []string{"x"}, Key: k0[:32], State: 1, Signers: []int{-1, 0}},
 				{Kind: "addNode", Addrs: []string{"x"}, Key: k0, State: 1, Signers: []int{-1}},
+				// signatures with scope None witness nothing
+				{Kind: "updateState", State: 3, Key: k0, Signers: []int{-1}, Unscoped: []int{0}},
+				{Kind: "updateState", State: 3, Key: k0, Signers: []int{0}, Unscoped: []int{-1}},
+				{Kind: "updateState", State: 2, Key: k0, Signers: []int{-1}, Unscoped: []int{0}},
+				{Kind: "addPeer", Info: n.info(0, 8, 4), Signers: []int{-1}, Unscoped: []int{0}},
+				{Kind: "addPeer", Info: n.info(0, 8, 4), Signers: []int{0}, Unscoped: []int{-1}},
+				{Kind: "addNode", Addrs: []string{"y"}, Key: k0, State: 1, Signers: []int{-1}, Unscoped: []int{0}},
+				{Kind: "addPeerIR", Info: n.info(0, 8, 4), Signers: []int{0}, Unscoped: []int{-1}},
+				{Kind: "deleteNode", Key: k0, Signers: []int{1}, Unscoped: []int{-1}},
 				{Kind: "updateState", State: 3, Key: k0, Signers: []int{-1, 0}},             // legacy only
 				{Kind: "updateState", State: 3, Key: k1, Signers: []int{-1, 1}},             // both
 				{Kind: "updateState", State: 3, Key: n.nodes[2].pub, Signers: []int{-1, 2}}, // structured only
@@ -1923,6 +1997,9 @@ func nmCorpus(prop string, n *nmEnv) [][]nmOp {
 			cat(ticks(1, 1), []nmOp{{Kind: "newEpoch", Epoch: 2, Signers: al, Join: true},
 				{Kind: "addPeerIR", Info: n.info(3, 3, 2), Signers: al, Join: true}, func() nmOp { o := addN(3, "3"); o.Join = true; return o }(), tick(3),
 				{Kind: "newEpoch", Epoch: 4, Signers: al, Join: true}, tick(5), resize(3)}, ticks(6, 8)),
+			// empty candidate set after non-empty maps, ring of 2: the reused slots must hold the empty map
+			cat(ticks(1, 2), []nmOp{resize(2), {Kind: "deleteNode", Key: n.nodes[1%len(n.nodes)].pub, Signers: al},
+				{Kind: "deleteNode", Key: n.nodes[2%len(n.nodes)].pub, Signers: al}, tick(3), tick(4), tick(5)}),
 			// LAST: run on a 3-key committee
 			cat(gates(resize(5)), ticks(1, 3), gates(resize(5)), []nmOp{resize(5)}, gates(tick(4)), ticks(4, 9), gates(resize(7)), []nmOp{resize(7)}, ticks(10, 11)),
 		}
